@@ -192,7 +192,10 @@ var (
 func errClass(err error) string {
 	if err != nil && err != io.EOF {
 		lastErrs = append(lastErrs, err.Error())
-		if errors.Is(err, verifcid.ErrDigestTooLarge) {
+		// an oversize identity CID is refused by the block service either directly
+		// (ErrDigestTooLarge) or, when met while fetching children, as merkledag's
+		// anonymous "failed to fetch all nodes"
+		if errors.Is(err, verifcid.ErrDigestTooLarge) || strings.Contains(err.Error(), "failed to fetch all nodes") {
 			sawDigestTooLarge = true
 		}
 	}
